@@ -245,28 +245,36 @@ def check_bound_plumb(ctx, R):
         R.ob('BOUND-PLUMB', con, 'maxsize', ok and src(call.func) in ('asyncio.Queue',),
              'parallelism does not reach asyncio.Queue(maxsize=...) (found %s)' % src(call), ctx.where(init, call.lineno))
         ij = cls.methods.get('_insert_job')
-        ws = cls.methods.get('_wait_for_work_slot')
-        if ij is None or ws is None:
-            raise AnalysisError('anchor vanished: map_async._insert_job/_wait_for_work_slot')
+        if ij is None:
+            raise AnalysisError('anchor vanished: map_async._insert_job')
+        # on the event paths of _insert_job (helpers spliced): the user function is called and the job queued only after a
+        # `while self.<queue>.full(): await ...` loop was left through its test
         bad = None
-        for st, status in ctx.paths(ij, cls, no_inline=('_wait_for_work_slot',)):
+        wait_loops = {}
+        n_paths = 0
+        for st, status in ctx.paths(ij, cls):
             evs = st.events
-            iw = next((i for i, e in enumerate(evs) if e.kind == 'SUS' and e.a and '_wait_for_work_slot' in e.a), None)
+            n_paths += 1
+            exits = [i for i, e in enumerate(evs) if e.kind == 'LOOPEXIT' and e.c == 'cond' and isinstance((e.x or {}).get('node'), ast.While)
+                     and ('self.%s.full()' % f) in src(e.x['node'].test).replace(' ', '')]
+            for i in exits:
+                wait_loops[evs[i].x['node'].lineno] = evs[i].x['node']
+            iw = exits[0] if exits else None
             iu = next((i for i, e in enumerate(evs) if e.kind == 'UCALL' and e.a == 'func'), None)
             ip = next((i for i, e in enumerate(evs) if e.kind == 'ST' and e.a == f and e.c in ('put', 'put_nowait')), None)
             if iu is not None and (iw is None or iw > iu):
                 bad = evs
             if ip is not None and (iw is None or iw > ip):
                 bad = evs
-        R.ob('BOUND-PLUMB', con, 'wait-before-accept', bad is None,
+        R.ob('BOUND-PLUMB', con, 'wait-before-accept', bad is None and n_paths > 0,
              'a job is created / queued without first awaiting a free work slot', ctx.where(ij, ij.node.lineno),
              fmt_path(bad) if bad else None)
-        # the wait loop spins on the queue being full
-        w = [n for n in own_nodes(ws.node) if isinstance(n, ast.While)]
-        okw = any('self.%s.full()' % f in src(x.test) for x in w) and any(
-            isinstance(n, ast.Await) for x in w for n in ast.walk(x))
+        # the wait loop spins on the queue being full, and yields to the loop while it does
+        okw = bool(wait_loops) and all(
+            src(w.test).replace(' ', '') == 'self.%s.full()' % f and any(isinstance(n, (ast.Await, ast.Yield)) for b_ in w.body for n in ast.walk(b_))
+            for w in wait_loops.values())
         R.ob('BOUND-PLUMB', con, 'slot-wait-loop', okw,
-             '_wait_for_work_slot does not wait while the work queue is full', ctx.where(ws, ws.node.lineno))
+             'map_async does not wait (yielding to the event loop) while the work queue is full', ctx.where(ij, ij.node.lineno))
         up = cls.methods['update']
         bad = None
         for st, status in ctx.paths(up, cls):
@@ -395,14 +403,19 @@ def check_sync_transport(ctx, R):
         return
     f = nested[0]
     # handler stores the exception into a cell; body stores the result into a cell
+    # (a cell is a one-element list of the enclosing function, `cell[0] = v`, or a variable declared nonlocal)
     err_cell = res_cell = None
+    nonlocals = {nm for n in own_nodes(f.node) if isinstance(n, ast.Nonlocal) for nm in n.names}
+
+    def is_cell(t):
+        return isinstance(t, ast.Subscript) or (isinstance(t, ast.Name) and t.id in nonlocals)
     for n in own_nodes(f.node):
         if isinstance(n, ast.ExceptHandler) and n.name:
             for s in n.body:
                 if isinstance(s, ast.Assign) and isinstance(s.value, ast.Name) and s.value.id == n.name \
-                        and isinstance(s.targets[0], ast.Subscript):
+                        and is_cell(s.targets[0]):
                     err_cell = src(s.targets[0])
-        if isinstance(n, ast.Assign) and isinstance(n.value, (ast.Yield, ast.Await)) and isinstance(n.targets[0], ast.Subscript):
+        if isinstance(n, ast.Assign) and isinstance(n.value, (ast.Yield, ast.Await)) and is_cell(n.targets[0]):
             res_cell = src(n.targets[0])
     R.ob('SYNC-TRANSPORT', con, 'store', err_cell is not None and res_cell is not None,
          'the coroutine run by sync() does not store its exception / result for the calling thread',
